@@ -12,8 +12,8 @@ import (
 
 func init() {
 	register("C04", core.Spec{
-		Decides: "three narrow structural clauses of C04 only. (1) cgen's operator table: every Wuffs unary, binary, associative and assignment operator is lowered to the C operator of the same meaning, where the expected C operator is derived from the operator constant's own name (…Plus → +, …LessEq → <=, TildeMod* → the plain operator, TildeSat*/As → no direct C operator), and no two distinct comparison operators share a lowering. (2) derived I/O pointers: in every generated function of std and the corpus, iop/io0/io1/io2 are loaded from the buffer's own index, written back before every return and saved/reloaded around every call that receives the buffer (the C08 G5 rule, evaluated here because it is a translation obligation). (3) struct initialisation: the generated initializer zeroes private_impl (or the whole struct) before arming it (C08 G6), which is what makes 'zero-initialised variables' true of fields. (4) loop lowering: no C `continue;` sits directly inside a do/while(0) (W1), per function no more do/while(0) loops than Wuffs loops that provably run once (W2), and cgen sets its run-once flag only past IsWhileTrue, !HasContinue and JumpTarget()==n (W3). (5) iterate: the generated rounds of every iterate statement visit exactly the chunk offsets the source defines (I2)",
-		NotDecided: "the substance of C04 — that expressions, casts and integer promotions, statement lowering other than the run-once idiom and the iterate chunk sequence (if/else chains, deep break/continue labels, loop bodies), every built-in method and SIMD intrinsic compute what the Wuffs source means for all inputs. That is translation correctness over all programs and needs a reference semantics; it is declined. Note that any cgen edit that changes std's generated C is reported by C20's snapshot comparison, which is not counted as C04 coverage",
+		Decides:     "three narrow structural clauses of C04 only. (1) cgen's operator table: every Wuffs unary, binary, associative and assignment operator is lowered to the C operator of the same meaning, where the expected C operator is derived from the operator constant's own name (…Plus → +, …LessEq → <=, TildeMod* → the plain operator, TildeSat*/As → no direct C operator), and no two distinct comparison operators share a lowering. (2) derived I/O pointers: in every generated function of std and the corpus, iop/io0/io1/io2 are loaded from the buffer's own index, written back before every return and saved/reloaded around every call that receives the buffer (the C08 G5 rule, evaluated here because it is a translation obligation). (3) struct initialisation: the generated initializer zeroes private_impl (or the whole struct) before arming it (C08 G6), which is what makes 'zero-initialised variables' true of fields. (4) loop lowering: no C `continue;` sits directly inside a do/while(0) (W1), per function no more do/while(0) loops than Wuffs loops that provably run once (W2), and cgen sets its run-once flag only past IsWhileTrue, !HasContinue and JumpTarget()==n (W3). (5) iterate: the generated rounds of every iterate statement visit exactly the chunk offsets the source defines (I2)",
+		NotDecided:  "the substance of C04 — that expressions, casts and integer promotions, statement lowering other than the run-once idiom and the iterate chunk sequence (if/else chains, deep break/continue labels, loop bodies), every built-in method and SIMD intrinsic compute what the Wuffs source means for all inputs. That is translation correctness over all programs and needs a reference semantics; it is declined. Note that any cgen edit that changes std's generated C is reported by C20's snapshot comparison, which is not counted as C04 coverage",
 		Assumptions: []string{"the Wuffs operator constants are named after the operator they denote (lang/token/list.go)", "the C statement parser and front end as in C08"},
 	}, runC04)
 }
